@@ -200,6 +200,12 @@ def build(spec):
             t = torch.randint(-100 if tdt != torch.uint8 else 0, 100, tuple(shape), generator=g).to(tdt)
         if is_param:
             return torch.nn.Parameter(t, requires_grad=bool(rg))
+        if seed % 3 == 0:
+            # every third tensor is a VIEW into a larger buffer (a crop / one row of a stack, non-zero storage
+            # offset): same dtype, shape and contents as `t`, but not the owner of its storage
+            big = torch.zeros((4,) + tuple(t.shape), dtype=t.dtype)
+            big[2] = t
+            t = big[2]
         if rg:
             t.requires_grad_(True)
         return t
